@@ -168,6 +168,7 @@ pub struct ValueGen<'a, 'b, 'c> {
     pub applied: Option<Sabotage>,
     pub facts: Facts,
     budget: usize,
+    depth: usize,
 }
 
 fn canon(raw: u64, n: u8) -> VarInt {
@@ -176,7 +177,7 @@ fn canon(raw: u64, n: u8) -> VarInt {
 
 impl<'a, 'b, 'c> ValueGen<'a, 'b, 'c> {
     pub fn new(env: &'a Env<'a>, t: &'b mut Tape<'c>, target: Option<(usize, usize)>) -> Self {
-        ValueGen { env, t, target, sites: [0; 4], applied: None, facts: Facts::default(), budget: 400 }
+        ValueGen { env, t, target, sites: [0; 4], applied: None, facts: Facts::default(), budget: 400, depth: 0 }
     }
 
     fn epoch(&mut self) -> Epoch {
@@ -189,8 +190,14 @@ impl<'a, 'b, 'c> ValueGen<'a, 'b, 'c> {
         }
     }
 
+    /// Recursive schema types (e.g. `option<box<Self>>`) must bottom out: past a depth or node
+    /// budget only the smallest conforming forms are produced.
+    fn minimal(&self) -> bool {
+        self.depth > 10 || self.budget == 0
+    }
+
     fn len(&mut self, max: usize) -> usize {
-        if self.budget < 20 {
+        if self.budget < 20 || self.minimal() {
             return 0;
         }
         let n = match self.t.below(8) {
@@ -419,6 +426,13 @@ impl<'a, 'b, 'c> ValueGen<'a, 'b, 'c> {
     /// A conforming value of type `t` (appearing in schema `ctx`) - unless the sabotage target
     /// falls on one of its sites.
     pub fn value(&mut self, ctx: &str, t: &Ty) -> RTree {
+        self.depth += 1;
+        let v = self.value_inner(ctx, t);
+        self.depth -= 1;
+        v
+    }
+
+    fn value_inner(&mut self, ctx: &str, t: &Ty) -> RTree {
         self.budget = self.budget.saturating_sub(1);
         self.facts.nodes += 1;
         // wrong-kind site: every typed position except `value`
@@ -431,7 +445,7 @@ impl<'a, 'b, 'c> ValueGen<'a, 'b, 'c> {
         match t {
             Ty::Kw(k) => self.prim(k),
             Ty::Gen1("option", a) => {
-                if self.t.below(3) == 0 {
+                if self.t.below(3) == 0 || self.minimal() {
                     RTree::None
                 } else {
                     RTree::Some(Box::new(self.value(ctx, a)))
@@ -513,7 +527,7 @@ impl<'a, 'b, 'c> ValueGen<'a, 'b, 'c> {
                 let v = self.value(ctx, &f.ty);
                 fields.push((self.varint(id, 4), v));
             } else {
-                match self.t.below(4) {
+                match if self.minimal() { 0 } else { self.t.below(4) } {
                     0 => self.facts.optional_absent += 1,
                     1 => {
                         self.facts.optional_none += 1;
@@ -584,7 +598,12 @@ impl<'a, 'b, 'c> ValueGen<'a, 'b, 'c> {
         if b.variants.is_empty() {
             return RTree::Enum(canon(0, 4), Box::new(RTree::None));
         }
-        let v = &b.variants[self.t.below(b.variants.len())];
+        let mut v = &b.variants[self.t.below(b.variants.len())];
+        if self.minimal() {
+            if let Some(unit) = b.variants.iter().find(|v| v.ty.is_none()) {
+                v = unit;
+            }
+        }
         let id: u64 = v.id.parse().unwrap_or(0);
         let payload = match &v.ty {
             Some(t) => self.value(ctx, t),
